@@ -160,10 +160,10 @@ func lemmaBackoffMono(T, i, j int) {
 //@   requires c != nil && c.conn != nil && c.logger != nil && c.pending != nil
 //@   modifies c.pending
 //@   after `call:ReadFrom` let S0 = chsends()
-//@   after `c.pendingMu.Unlock()` claim[at-most-one] chsends() == S0 || chsends() == S0 + 1
-//@   after `c.pendingMu.Unlock()` claim[decoded] chsends() == S0 + 1 ==> SpecAcceptV4(string(b[:n])) && lastChanValue() == msg && string(msg.TransactionID[:]) == string(b[:n])[4:8]
-//@   after `c.pendingMu.Unlock()` claim[reply-for-us] chsends() == S0 + 1 ==> int(msg.OpCode) == 2 && (c.ifaceHWAddr != nil ==> string(c.ifaceHWAddr) == string(msg.ClientHWAddr))
-//@   after `c.pendingMu.Unlock()` claim[own-channel] chsends() == S0 + 1 ==> has(c.pending, msg.TransactionID) && lastChan() == c.pending[msg.TransactionID].ch
+//@   after `call:Unlock` claim[at-most-one] chsends() == S0 || chsends() == S0 + 1
+//@   after `call:Unlock` claim[decoded] chsends() == S0 + 1 ==> SpecAcceptV4(string(b[:n])) && lastChanValue() == msg && string(msg.TransactionID[:]) == string(b[:n])[4:8]
+//@   after `call:Unlock` claim[reply-for-us] chsends() == S0 + 1 ==> int(msg.OpCode) == 2 && (c.ifaceHWAddr != nil ==> string(c.ifaceHWAddr) == string(msg.ClientHWAddr))
+//@   after `call:Unlock` claim[own-channel] chsends() == S0 + 1 ==> has(c.pending, msg.TransactionID) && lastChan() == c.pending[msg.TransactionID].ch
 
 // ---------- lease acquisition (property C13): what is asked, what may complete it, what comes back ----------
 //
